@@ -4,7 +4,7 @@
      par (ser (jdoc_of t)) = Some (jdoc_of t)             for tables t with distinct keys, and
      par (firstn k (ser (jdoc_of t))) = None              for every k < length (every proper prefix),
    validated on CPython by the harness for every generated file at every byte offset. *)
-From CF Require Import Common.Bytes C03.Model C03.ExtModel C03.Fetch C03.Lookup C11.Model C11.Proofs C11.Conc C11.Observers C11.Empty C11.Decoder.
+From CF Require Import Common.Bytes C03.Model C03.ExtModel C03.Fetch C03.Lookup C11.Model C11.Proofs C11.Conc C11.Observers C11.Empty C11.Decoder C11.ReadOnly.
 Open Scope Z_scope.
 
 (* Crash safety, wrong-table safety and read-only directory, for ALL histories: starting from cache
@@ -258,3 +258,23 @@ Theorem C11_lenient_extended_refuted :
   mkElem ParamCls 0 [112] [97] "uint8_t" "<B" 0 false false <> reload_elem dev_elem.
 Proof. exact lenient_extended_refuted. Qed.
 Print Assumptions C11_lenient_extended_refuted.
+
+(* "The read-only cache directory is never written" over whole histories (model C11/ReadOnly.v): the file system is
+   the pair of maps (ro, rw); for EVERY history of fetches (of any checksum, usable or not: missing, cut short,
+   unparsable, missing fields), completed inserts, inserts cut short, restarts with any directory combination, on any
+   number of objects: the ro map afterwards is the ro map before.  (fetch writes nothing; insert writes the rw map.) *)
+Theorem C11_ro_unchanged_any_history : forall (par : list Z -> option jdoc) ops st (fs : fsys (list Z)),
+  ro_files (snd (rrun par (st, fs) ops)) = ro_files fs.
+Proof. exact (@ro_unchanged_any_history (list Z)). Qed.
+Print Assumptions C11_ro_unchanged_any_history.
+
+(* refutation of "discard a cache file that cannot be used": a truncated file in the read-only directory is deleted *)
+Theorem C11_discard_on_unparsable_refuted :
+  let fs := @mkFs (list Z) [(cache_name 7, [123])] [] in
+  let st := cinit true true fs in
+  let par := fun (_ : list Z) => @None jdoc in
+  ro_files (snd (fetch_discard par st fs 7)) = [] /\
+  ro_files (snd (rrun par (st, fs) [RFetch 7])) = [(cache_name 7, [123])] /\
+  cfetch par st fs 7 = Miss.
+Proof. exact discard_on_unparsable_refuted. Qed.
+Print Assumptions C11_discard_on_unparsable_refuted.
